@@ -94,7 +94,7 @@ def adjoint_tests(which):
     rng = np.random.default_rng(Int('seed', 0, 10 ** 6))
     pr = get('prysm.propagation')
     inner = lambda a, b: np.vdot(a, b)
-    cplx = lambda shp: rng.standard_normal(shp) + 1j * rng.standard_normal(shp)
+    cplx = lambda shp: vary_layout(rng, rng.standard_normal(shp) + 1j * rng.standard_normal(shp))      # fields in any memory layout
     m, n = int(rng.integers(2, 8)), int(rng.integers(2, 8))
     M, N = int(rng.integers(2, 9)), int(rng.integers(2, 9))
     dx, wvl, efl = float(rng.uniform(0.1, 1)), float(rng.uniform(0.4, 1)), float(rng.uniform(50, 300))
